@@ -1,10 +1,28 @@
 //! C07: incremental updates -- latest revision wins, history preserved (bounded histories through the real loader).
 #![allow(dead_code)]
-use crate::common::*;
+use crate::common::{Report};
 use crate::gen::*;
 use lopdf::{Document, IncrementalDocument, Object};
+use rayon::prelude::*;
 use serde_json::{json, Value};
-use std::collections::BTreeMap;
+use std::collections::{BTreeMap, BTreeSet};
+
+thread_local! { static PANIC_AT: std::cell::RefCell<String> = std::cell::RefCell::new(String::new()); }
+/// catch a panic without touching the process-global panic hook (`common::guarded` swaps it on every call, which races
+/// between rayon workers); `quiet` installs one hook around the whole run that records the location per thread
+fn guarded<T>(f: impl FnOnce() -> T) -> Result<T, String> {
+    std::panic::catch_unwind(std::panic::AssertUnwindSafe(f)).map_err(|e| {
+        let msg = if let Some(s) = e.downcast_ref::<String>() { s.clone() } else if let Some(s) = e.downcast_ref::<&str>() { s.to_string() } else { "panic".to_string() };
+        format!("{} at {}", msg, PANIC_AT.with(|p| p.borrow().clone()))
+    })
+}
+fn quiet<T>(f: impl FnOnce() -> T) -> T {
+    let prev = std::panic::take_hook();
+    std::panic::set_hook(Box::new(|info| { if let Some(l) = info.location() { PANIC_AT.with(|p| *p.borrow_mut() = format!("{}:{}", l.file(), l.line())); } }));
+    let r = f();
+    std::panic::set_hook(prev);
+    r
+}
 
 /// minimal independent serializer for the value alphabet used here
 fn ser(o: &Object, out: &mut Vec<u8>) {
@@ -58,57 +76,149 @@ fn numbers_defined(file: &[u8]) -> std::collections::BTreeSet<u32> {
     out
 }
 
-/// append one revision to `file`; `objs` = new or replaced objects; `container` / `xid` = the numbers of the object
-/// stream and of the cross-reference stream (where the style has them); `size` = the /Size to announce (highest number
-/// of the whole file + 1); returns the new startxref
-fn append_revision(file: &mut Vec<u8>, objs: &[(u32, Object)], container: u32, xid: u32, size: u32, root: u32, prev: usize, style: Style) -> usize {
-    if !file.ends_with(b"\n") { file.push(b'\n'); }
+/// how the reference TABLE writer groups the entries of one section into subsections (`first count` + count entries)
+#[derive(Clone, Copy, Debug, PartialEq)]
+pub enum TableForm {
+    /// one subsection of count 1 per entry
+    Singletons,
+    /// one subsection per maximal run of consecutive numbers
+    Runs,
+    /// the free-list head `0 1` / `0000000000 65535 f` first (joined with a run that starts at 1), then the runs
+    FreeHead,
+    /// the head subsection with count 0 (`0 0`) first, then the runs
+    EmptyHead,
+}
+pub const FORMS: [TableForm; 4] = [TableForm::Singletons, TableForm::Runs, TableForm::FreeHead, TableForm::EmptyHead];
+fn form_name(f: TableForm) -> &'static str { match f { TableForm::Singletons => "Singletons", TableForm::Runs => "Runs", TableForm::FreeHead => "FreeHead", TableForm::EmptyHead => "EmptyHead" } }
+fn form_from(s: &str) -> TableForm { match s { "Runs" => TableForm::Runs, "FreeHead" => TableForm::FreeHead, "EmptyHead" => TableForm::EmptyHead, _ => TableForm::Singletons } }
+
+/// the body and the cross-reference section of one revision, written by the reference writer
+#[derive(Clone, Debug)]
+struct Plan {
+    /// new or replaced objects
+    objs: Vec<(u32, Object)>,
+    /// numbers of the object stream and of the cross-reference stream (where the style has them, else 0)
+    container: u32,
+    xid: u32,
+    /// the /Size to announce (highest number of the whole file + 1)
+    size: u32,
+    style: Style,
+    form: TableForm,
+}
+
+/// the bytes of one revision (objects, then cross-reference section with trailer; no startxref) when it is placed at
+/// file offset `at`; `prev` = offset of the section it chains to (None: the first revision); `pad_prev`: the /Prev value
+/// is followed by blanks up to 10 characters, so that the length of the block does not depend on `at` or `prev`.
+/// Returns the bytes and the file offset of the cross-reference section.
+/// A revision without objects has an empty table (the single subsection `0 0`, unless the form writes the free head) or a
+/// cross-reference stream that lists only itself; no empty object stream is written.
+fn render_revision(at: usize, p: &Plan, root: u32, prev: Option<usize>, pad_prev: bool) -> (Vec<u8>, usize) {
+    let mut out: Vec<u8> = vec![];
+    let objs = &p.objs;
     let mut offsets: BTreeMap<u32, (u8, u64, u64)> = BTreeMap::new(); // id -> (type, f2, f3)
-    match style {
-        Style::Table | Style::XStream => {
-            for (id, o) in objs {
-                offsets.insert(*id, (1, file.len() as u64, 0));
-                file.extend_from_slice(format!("{} 0 obj\n", id).as_bytes());
-                ser(o, file);
-                file.extend_from_slice(b"\nendobj\n");
-            }
+    let in_objstm = p.style == Style::ObjStm && !objs.is_empty();
+    if !in_objstm {
+        for (id, o) in objs {
+            offsets.insert(*id, (1, (at + out.len()) as u64, 0));
+            out.extend_from_slice(format!("{} 0 obj\n", id).as_bytes());
+            ser(o, &mut out);
+            out.extend_from_slice(b"\nendobj\n");
         }
-        Style::ObjStm => {
-            let mut index = Vec::new();
-            let mut body = Vec::new();
-            for (k, (id, o)) in objs.iter().enumerate() {
-                index.extend_from_slice(format!("{} {} ", id, body.len()).as_bytes());
-                ser(o, &mut body);
-                body.push(b'\n');
-                offsets.insert(*id, (2, container as u64, k as u64));
-            }
-            let mut content = index.clone();
-            content.extend_from_slice(&body);
-            offsets.insert(container, (1, file.len() as u64, 0));
-            file.extend_from_slice(format!("{} 0 obj\n<</Type /ObjStm /N {} /First {} /Length {}>>\nstream\n", container, objs.len(), index.len(), content.len()).as_bytes());
-            file.extend_from_slice(&content);
-            file.extend_from_slice(b"\nendstream\nendobj\n");
+    } else {
+        let mut index = Vec::new();
+        let mut body = Vec::new();
+        for (k, (id, o)) in objs.iter().enumerate() {
+            index.extend_from_slice(format!("{} {} ", id, body.len()).as_bytes());
+            ser(o, &mut body);
+            body.push(b'\n');
+            offsets.insert(*id, (2, p.container as u64, k as u64));
         }
+        let mut content = index.clone();
+        content.extend_from_slice(&body);
+        offsets.insert(p.container, (1, (at + out.len()) as u64, 0));
+        out.extend_from_slice(format!("{} 0 obj\n<</Type /ObjStm /N {} /First {} /Length {}>>\nstream\n", p.container, objs.len(), index.len(), content.len()).as_bytes());
+        out.extend_from_slice(&content);
+        out.extend_from_slice(b"\nendstream\nendobj\n");
     }
-    let xref_pos = file.len();
-    match style {
+    let xref_pos = at + out.len();
+    let prev_txt = match prev { None => String::new(), Some(x) if pad_prev => format!(" /Prev {:<10}", x), Some(x) => format!(" /Prev {}", x) };
+    match p.style {
         Style::Table => {
-            file.extend_from_slice(b"xref\n");
-            for (id, (_, off, _)) in &offsets { file.extend_from_slice(format!("{} 1\n{:010} {:05} n \n", id, off, 0).as_bytes()); }
-            file.extend_from_slice(format!("trailer\n<</Size {} /Root {} 0 R /Prev {}>>\n", size, root, prev).as_bytes());
+            out.extend_from_slice(b"xref\n");
+            let entry = |out: &mut Vec<u8>, off: u64| out.extend_from_slice(format!("{:010} {:05} n \n", off, 0).as_bytes());
+            if p.form == TableForm::Singletons {
+                for (id, (_, off, _)) in &offsets { out.extend_from_slice(format!("{} 1\n", id).as_bytes()); entry(&mut out, *off); }
+                if offsets.is_empty() { out.extend_from_slice(b"0 0\n"); }
+            } else {
+                // maximal runs of consecutive numbers
+                let mut runs: Vec<Vec<(u32, u64)>> = vec![];
+                for (id, (_, off, _)) in &offsets {
+                    match runs.last_mut() { Some(r) if r.last().map(|(l, _)| l + 1) == Some(*id) => r.push((*id, *off)), _ => runs.push(vec![(*id, *off)]) }
+                }
+                let mut head_joined = false;
+                match p.form {
+                    TableForm::FreeHead => {
+                        head_joined = runs.first().map(|r| r[0].0 == 1).unwrap_or(false);
+                        out.extend_from_slice(format!("0 {}\n0000000000 65535 f \n", if head_joined { runs[0].len() + 1 } else { 1 }).as_bytes());
+                    }
+                    TableForm::EmptyHead => out.extend_from_slice(b"0 0\n"),
+                    _ => if runs.is_empty() { out.extend_from_slice(b"0 0\n") },
+                }
+                for (k, r) in runs.iter().enumerate() {
+                    if !(k == 0 && head_joined) { out.extend_from_slice(format!("{} {}\n", r[0].0, r.len()).as_bytes()); }
+                    for (_, off) in r { entry(&mut out, *off); }
+                }
+            }
+            out.extend_from_slice(format!("trailer\n<</Size {} /Root {} 0 R{}>>\n", p.size, root, prev_txt).as_bytes());
         }
         Style::XStream | Style::ObjStm => {
-            offsets.insert(xid, (1, xref_pos as u64, 0));
+            offsets.insert(p.xid, (1, xref_pos as u64, 0));
             let mut rows = Vec::new();
             let mut index = String::new();
             for (id, (t, a, b)) in &offsets { index.push_str(&format!("{} 1 ", id)); rows.push(*t); rows.extend_from_slice(&(*a as u32).to_be_bytes()); rows.extend_from_slice(&(*b as u16).to_be_bytes()); }
-            file.extend_from_slice(format!("{} 0 obj\n<</Type /XRef /Size {} /Root {} 0 R /Prev {} /W [1 4 2] /Index [{}] /Length {}>>\nstream\n", xid, size, root, prev, index.trim(), rows.len()).as_bytes());
-            file.extend_from_slice(&rows);
-            file.extend_from_slice(b"\nendstream\nendobj\n");
+            out.extend_from_slice(format!("{} 0 obj\n<</Type /XRef /Size {} /Root {} 0 R{} /W [1 4 2] /Index [{}] /Length {}>>\nstream\n", p.xid, p.size, root, prev_txt, index.trim(), rows.len()).as_bytes());
+            out.extend_from_slice(&rows);
+            out.extend_from_slice(b"\nendstream\nendobj\n");
         }
     }
+    (out, xref_pos)
+}
+
+/// append one revision to `file` (after the bytes that are there, followed by its own startxref / %%EOF); returns the new startxref
+fn append_revision(file: &mut Vec<u8>, p: &Plan, root: u32, prev: usize) -> usize {
+    if !file.ends_with(b"\n") { file.push(b'\n'); }
+    let (block, xref_pos) = render_revision(file.len(), p, root, Some(prev), false);
+    file.extend_from_slice(&block);
     file.extend_from_slice(format!("startxref\n{}\n%%EOF", xref_pos).as_bytes());
     xref_pos
+}
+
+/// what the reference writer writes for update set `up` as revision `rev` + 1 when the numbers in `used` are taken:
+/// the objects, and the numbers of its object stream / cross-reference stream
+fn plan_ref(up: &[Op], rev: usize, used: &BTreeSet<u32>, low_numbers: bool, style: Style, form: TableForm) -> Plan {
+    let mut used = used.clone();
+    let mut objs: Vec<(u32, Object)> = vec![];
+    let mut hi = used.iter().max().copied().unwrap_or(0);
+    for (k, op) in up.iter().enumerate() {
+        match op {
+            Op::Replace(id) | Op::At(id) => objs.push((*id, payload(*id, rev + 1, 1))),
+            Op::New => { hi += 1; used.insert(hi); objs.push((hi, payload_new(rev + 1, k))); }
+        }
+    }
+    used.extend(objs.iter().map(|(i, _)| *i));
+    hi = used.iter().max().copied().unwrap_or(0);
+    // numbers for the object stream and the cross-reference stream
+    let mut book = vec![];
+    if low_numbers {
+        let mut n = 1;
+        while book.len() < 2 { if !used.contains(&n) { book.push(n); used.insert(n); } n += 1; }
+    } else {
+        let b = (50 + 2 * rev as u32).max(hi + 1);   // fresh, above every number used so far
+        book = vec![b, b + 1];
+    }
+    let (container, xid) = match style { Style::Table => (0, 0), Style::XStream => (0, book[0]), Style::ObjStm if objs.is_empty() => (0, book[0]), Style::ObjStm => (book[0], book[1]) };
+    let size = hi.max(container).max(xid) + 1;
+    Plan { objs, container, xid, size, style, form }
 }
 
 fn base_doc(n: u32) -> (Document, BTreeMap<u32, Object>) {
@@ -124,13 +234,15 @@ fn base_doc(n: u32) -> (Document, BTreeMap<u32, Object>) {
     (d, model)
 }
 
-pub const N_UPDATES: usize = 8;
+pub const N_UPDATES: usize = 9;
 fn updates() -> Vec<Vec<Op>> {
     use Op::*;
     vec![
         vec![Replace(2)], vec![Replace(3), Replace(2)], vec![At(40)], vec![Replace(2), At(41), At(42)], vec![Replace(1)], vec![Replace(3)],
         // additions whose number the producer allocates
         vec![New], vec![Replace(2), New, New],
+        // the empty subset: a revision that changes no object and only appends a new cross-reference section and trailer
+        vec![],
     ]
 }
 fn payload(id: u32, rev: usize, tag: u8) -> Object {
@@ -158,15 +270,65 @@ fn check_model(file: &[u8], model: &BTreeMap<u32, Object>, what: &str) -> Result
 /// loader) instead of `IncrementalDocument::create_from(bytes, Document::load_mem(bytes))`.
 /// `low_numbers`: the reference writer numbers its object-stream / cross-reference-stream objects with the lowest
 /// unused numbers (so they are not the highest numbers of the file) instead of fresh numbers above everything.
-pub fn check_history(base_stream: bool, base_n: u32, producers: &[Producer], seq: &[usize], open_try_into: bool, low_numbers: bool) -> Result<(), (String, String)> {
+/// `form`: how the reference table writer groups entries into subsections.
+/// `layout`: None = the base is saved by lopdf and every revision is appended after the previous one. Some(perm) = the
+/// base and the first perm.len()-1 revisions (all by the reference writer) are PLACED in the file in the physical order
+/// `perm` (a permutation of 0..perm.len(), 0 = the base), each section chained by /Prev to its predecessor in revision
+/// order wherever that one lies (so /Prev may point forward in the file, as in every linearized file), one startxref
+/// at the end pointing to the section of the newest placed revision; the remaining revisions are appended as usual.
+pub fn check_history(base_stream: bool, base_n: u32, producers: &[Producer], seq: &[usize], open_try_into: bool, low_numbers: bool, form: TableForm, layout: Option<&[usize]>) -> Result<(), (String, String)> {
     let (mut d, mut model) = base_doc(base_n);
-    d.reference_table.cross_reference_type = if base_stream { lopdf::xref::XrefType::CrossReferenceStream } else { lopdf::xref::XrefType::CrossReferenceTable };
-    let mut file = vec![];
-    d.save_to(&mut file).map_err(|e| ("base-save".to_string(), e.to_string()))?;
     let ups = updates();
-    let mut prev_doc = check_model(&file, &model, "base")?;
     let mut defined_in: BTreeMap<u32, usize> = model.keys().map(|k| (*k, 0usize)).collect(); // number -> revision that last defined it
-    for (rev, u) in seq.iter().enumerate() {
+    let mut file = vec![];
+    let mut prev_doc;
+    let mut placed = 0;   // update revisions that are part of the placed head
+    match layout {
+        None => {
+            d.reference_table.cross_reference_type = if base_stream { lopdf::xref::XrefType::CrossReferenceStream } else { lopdf::xref::XrefType::CrossReferenceTable };
+            d.save_to(&mut file).map_err(|e| ("base-save".to_string(), e.to_string()))?;
+            prev_doc = check_model(&file, &model, "base")?;
+        }
+        Some(perm) => {
+            let n = perm.len();
+            let mut sorted = perm.to_vec(); sorted.sort();
+            if n == 0 || n - 1 > seq.len() || sorted != (0..n).collect::<Vec<_>>() { return Err(("domain".into(), format!("layout {:?} is not a permutation of the base and the first revisions", perm))); }
+            placed = n - 1;
+            // the plans, in revision order
+            let mut used: BTreeSet<u32> = model.keys().copied().collect();
+            let bxid = if base_stream { base_n + 1 } else { 0 };
+            if base_stream { used.insert(bxid); }
+            let mut plans = vec![Plan { objs: model.iter().map(|(k, v)| (*k, v.clone())).collect(), container: 0, xid: bxid, size: base_n.max(bxid) + 1, style: if base_stream { Style::XStream } else { Style::Table }, form: TableForm::FreeHead }];
+            for rev in 0..placed {
+                let style = match producers.get(rev) { Some(Producer::Ref(s)) => *s, other => return Err(("domain".into(), format!("revision {} of the placed head must be written by the reference writer, not {:?}", rev + 1, other))) };
+                let plan = plan_ref(&ups[seq[rev] % ups.len()], rev, &used, low_numbers, style, form);
+                used.extend(plan.objs.iter().map(|(i, _)| *i));
+                used.extend([plan.container, plan.xid].iter().filter(|x| **x != 0));
+                for (id, o) in &plan.objs { model.insert(*id, o.clone()); defined_in.insert(*id, rev + 1); }
+                plans.push(plan);
+            }
+            // block lengths do not depend on the position (offsets and /Prev have a fixed width): lay the blocks out in physical order
+            let lens: Vec<usize> = plans.iter().enumerate().map(|(i, p)| render_revision(0, p, 1, if i > 0 { Some(0) } else { None }, true).0.len()).collect();
+            file.extend_from_slice(b"%PDF-1.5\n");
+            let mut at = vec![0usize; n];
+            let mut pos = file.len();
+            for &i in perm { at[i] = pos; pos += lens[i]; }
+            let mut sections = vec![0usize; n];
+            let mut blocks: Vec<Vec<u8>> = vec![];
+            for i in 0..n {
+                let (b, x) = render_revision(at[i], &plans[i], 1, if i > 0 { Some(sections[i - 1]) } else { None }, true);
+                if b.len() != lens[i] { return Err(("domain".into(), "reference writer: block length depends on its position".into())); }
+                sections[i] = x;
+                blocks.push(b);
+            }
+            for &i in perm { file.extend_from_slice(&blocks[i]); }
+            file.extend_from_slice(format!("startxref\n{}\n%%EOF", sections[n - 1]).as_bytes());
+            let forward: Vec<String> = (1..n).filter(|i| sections[i - 1] > sections[*i]).map(|i| format!("revision {} at {} -> /Prev {}", i, sections[i], sections[i - 1])).collect();
+            let what = format!("reference-written file holding the base and revisions 1..{} ({:?}) in the physical order {:?} (0 = base): cross-reference sections of revisions 0..{} at {:?}, startxref {}, /Prev pointing forward in the file: {}", placed, &producers[..placed], perm, placed, sections, sections[n - 1], if forward.is_empty() { "none".to_string() } else { forward.join(", ") });
+            prev_doc = check_model(&file, &model, &what)?;
+        }
+    }
+    for (rev, u) in seq.iter().enumerate().skip(placed) {
         let up = &ups[*u % ups.len()];
         let producer = producers.get(rev).copied().unwrap_or(Producer::Lopdf);
         let what = format!("revision {} ({:?})", rev + 1, producer);
@@ -192,7 +354,7 @@ pub fn check_history(base_stream: bool, base_n: u32, producers: &[Producer], seq
                         }
                         Op::New => {
                             let o = payload_new(rev + 1, k);
-                            let got = match guarded(std::panic::AssertUnwindSafe(|| inc.new_document.add_object(o.clone()))) { Ok(id) => id, Err(p) => return Err(("incremental-save".into(), format!("{}: new_document.add_object panicked: {}", what, p))) };
+                            let got = match guarded(|| inc.new_document.add_object(o.clone())) { Ok(id) => id, Err(p) => return Err(("incremental-save".into(), format!("{}: new_document.add_object panicked: {}", what, p))) };
                             // an ADDED object must not take the number of an object that an earlier revision (or this one) defines:
                             // otherwise that untouched object no longer comes from its revision
                             if got.1 != 0 || model.contains_key(&got.0) || objs.iter().any(|(i, _)| *i == got.0) {
@@ -205,7 +367,7 @@ pub fn check_history(base_stream: bool, base_n: u32, producers: &[Producer], seq
                 }
                 for (id, o) in &objs { model.insert(*id, o.clone()); defined_in.insert(*id, rev + 1); }
                 let mut out = vec![];
-                match guarded(std::panic::AssertUnwindSafe(|| inc.save_to(&mut out))) { Ok(Ok(())) => {}, other => return Err(("incremental-save".into(), format!("{:?}", other.map(|r| r.map_err(|e| e.to_string()))))) }
+                match guarded(|| inc.save_to(&mut out)) { Ok(Ok(())) => {}, other => return Err(("incremental-save".into(), format!("{:?}", other.map(|r| r.map_err(|e| e.to_string()))))) }
                 if !out.starts_with(&before) { return Err(("prefix-preserved".into(), format!("revision {}: the previously loaded bytes are not an unchanged prefix", rev + 1))); }
                 if format!("{:?}", inc.get_prev_documents().objects) != prev_view { return Err(("previous-view-unmodified".into(), "saving changed the view of the previous revisions".into())); }
                 // only new or replaced objects are appended
@@ -217,32 +379,15 @@ pub fn check_history(base_stream: bool, base_n: u32, producers: &[Producer], seq
                 // every number in use so far: the model plus whatever bookkeeping objects earlier producers wrote (byte scan)
                 let mut used = numbers_defined(&file);
                 used.extend(model.keys().copied());
-                let mut hi = used.iter().max().copied().unwrap_or(0);
-                for (k, op) in up.iter().enumerate() {
-                    match op {
-                        Op::Replace(id) | Op::At(id) => objs.push((*id, payload(*id, rev + 1, 1))),
-                        Op::New => { hi += 1; used.insert(hi); objs.push((hi, payload_new(rev + 1, k))); }
-                    }
-                }
-                used.extend(objs.iter().map(|(i, _)| *i));
-                hi = used.iter().max().copied().unwrap_or(0);
-                // numbers for the object stream and the cross-reference stream
-                let mut book = vec![];
-                if low_numbers {
-                    let mut n = 1;
-                    while book.len() < 2 { if !used.contains(&n) { book.push(n); used.insert(n); } n += 1; }
-                } else {
-                    let b = (50 + 2 * rev as u32).max(hi + 1);   // fresh, above every number used so far
-                    book = vec![b, b + 1];
-                }
-                let (container, xid) = match style { Style::Table => (0, 0), Style::XStream => (0, book[0]), Style::ObjStm => (book[0], book[1]) };
-                let size = hi.max(container).max(xid) + 1;
-                for (id, o) in &objs { model.insert(*id, o.clone()); defined_in.insert(*id, rev + 1); }
+                let plan = plan_ref(up, rev, &used, low_numbers, style, form);
+                for (id, o) in &plan.objs { model.insert(*id, o.clone()); defined_in.insert(*id, rev + 1); }
                 let prev = prev_doc.xref_start;
-                append_revision(&mut file, &objs, container, xid, size, 1, prev, style);
+                append_revision(&mut file, &plan, 1, prev);
             }
         }
-        prev_doc = check_model(&file, &model, &format!("after {}", what))?;
+        let shape = if up.is_empty() { ", no object changed" } else { "" };
+        let table = if producer == Producer::Ref(Style::Table) { format!(", table subsections {:?}", form) } else { String::new() };
+        prev_doc = check_model(&file, &model, &format!("after {}{}{}", what, shape, table))?;
     }
     Ok(())
 }
@@ -258,11 +403,28 @@ fn producer_from(s: &str) -> Producer {
     match s { "Table" => Producer::Ref(Style::Table), "XStream" => Producer::Ref(Style::XStream), "ObjStm" => Producer::Ref(Style::ObjStm), _ => Producer::Lopdf }
 }
 
+fn permutations(n: usize) -> Vec<Vec<usize>> {
+    if n == 0 { return vec![vec![]]; }
+    let mut out = vec![];
+    for p in permutations(n - 1) { for k in 0..=p.len() { let mut q = p.clone(); q.insert(k, n - 1); out.push(q); } }
+    out.sort();
+    out
+}
+
+#[derive(Clone, Debug)]
+struct Case { base_stream: bool, prods: Vec<Producer>, seq: Vec<usize>, open_try_into: bool, low_numbers: bool, form: TableForm, layout: Option<Vec<usize>> }
+fn case_json(c: &Case) -> Value {
+    let names: Vec<&str> = c.prods.iter().map(producer_name).collect();
+    json!({"base_stream": c.base_stream, "producers": names, "seq": c.seq, "open_try_into": c.open_try_into, "low_numbers": c.low_numbers, "table_form": form_name(c.form), "layout": c.layout})
+}
+
 pub fn run(thorough: bool) -> Report {
-    let mut rep = Report::new("base documents of 3 objects (table / xref-stream) x histories of 1..2 (thorough: 3) revisions over 8 update sets (6 replacing / adding under caller-chosen numbers 40..42, 2 adding 1..2 objects whose number the PRODUCER allocates: lopdf by new_document.add_object(), the reference writer highest+1) x a producer PER REVISION (table base: reference table writer | lopdf IncrementalDocument; xref-stream base: reference xref-stream writer | reference object-stream writer | lopdf IncrementalDocument; all mixed sequences) x {lopdf revisions opened by create_from(bytes, load_mem(bytes)) | by TryInto<IncrementalDocument> for &[u8]} (when a lopdf revision occurs) x {reference ObjStm/XRef objects numbered above everything | with the lowest unused numbers, so the newest section need not hold the highest number} (thorough only, when a reference stream revision occurs); /Size exact; reload after every revision; an allocated number must not be one an earlier revision defines", true);
+    let mut rep = Report::new("base documents of 3 objects (table / xref-stream) x histories of 1..2 (thorough: 3) revisions over 9 update sets (6 replacing / adding under caller-chosen numbers 40..42, 2 adding 1..2 objects whose number the PRODUCER allocates: lopdf by new_document.add_object(), the reference writer highest+1, 1 EMPTY: the revision changes no object and only appends a cross-reference section + trailer - reference table writer: `xref 0 0 trailer`, reference stream writers: an XRef stream listing only itself) x a producer PER REVISION (table base: reference table writer | lopdf IncrementalDocument; xref-stream base: reference xref-stream writer | reference object-stream writer | lopdf IncrementalDocument; all mixed sequences) x {lopdf revisions opened by create_from(bytes, load_mem(bytes)) | by TryInto<IncrementalDocument> for &[u8]} (when a lopdf revision occurs) x {reference ObjStm/XRef objects numbered above everything | with the lowest unused numbers, so the newest section need not hold the highest number} (thorough only, when a reference stream revision occurs) x subsection structure of the reference TABLE writer {one subsection per entry | one per maximal run of consecutive numbers | free head `0 1` + runs | zero-count head `0 0` + runs} (when a reference table revision occurs) x PLACEMENT of the revisions in the file {base saved by lopdf, every revision appended after the previous one | base (FreeHead table / XRef stream) and the maximal leading run of j reference-written revisions written by the reference writer in EVERY physical order (all (j+1)! permutations, identity included; /Prev always chains in revision order, so it points forward in the file whenever a revision lies before its predecessor - the layout of linearized files; fixed-width /Prev, one startxref at the end naming the newest placed section), remaining revisions appended by their producers}; /Size exact; reload after every appended revision and after the placed head; an allocated number must not be one an earlier revision defines", true);
     let maxlen = if thorough { 3 } else { 2 };
     let mut seqs: Vec<Vec<usize>> = vec![];
     for a in 0..N_UPDATES { seqs.push(vec![a]); for b in 0..N_UPDATES { seqs.push(vec![a, b]); if maxlen >= 3 { for c in 0..N_UPDATES { seqs.push(vec![a, b, c]); } } } }
+    let perms: Vec<Vec<Vec<usize>>> = (0..=maxlen + 1).map(permutations).collect();
+    let mut cases: Vec<Case> = vec![];
     for base_stream in [false, true] {
         let ps = producers_for(base_stream);
         for seq in &seqs {
@@ -273,25 +435,37 @@ pub fn run(thorough: bool) -> Report {
                 let prods: Vec<Producer> = (0..seq.len()).map(|_| { let p = ps[c % ps.len()]; c /= ps.len(); p }).collect();
                 let has_lopdf = prods.iter().any(|p| *p == Producer::Lopdf);
                 let has_ref_stream = prods.iter().any(|p| matches!(p, Producer::Ref(Style::XStream) | Producer::Ref(Style::ObjStm)));
-                for open_try_into in [false, true] {
-                    if open_try_into && !has_lopdf { continue; }
-                    for low_numbers in [false, true] {
-                        // with a base of 3 contiguous numbers the lowest unused numbers ARE the highest until an earlier revision left a hole
-                        // (At(40..42)) and a later one is written below it: needs 3 revisions to matter, so thorough only
-                        if low_numbers && !(has_ref_stream && thorough) { continue; }
-                        rep.case(true);
-                        if let Err((o, d)) = check_history(base_stream, 3, &prods, seq, open_try_into, low_numbers) {
-                            let names: Vec<&str> = prods.iter().map(producer_name).collect();
-                            rep.fail(&o, d.clone(), json!({"base_stream": base_stream, "producers": names, "seq": seq, "open_try_into": open_try_into, "low_numbers": low_numbers}), d);
+                let has_ref_table = prods.iter().any(|p| *p == Producer::Ref(Style::Table));
+                // the maximal leading run of reference-written revisions can be placed together with the base
+                let lead = prods.iter().take_while(|p| matches!(p, Producer::Ref(_))).count();
+                let mut layouts: Vec<Option<Vec<usize>>> = vec![None];
+                layouts.extend(perms[lead + 1].iter().cloned().map(Some));
+                for layout in &layouts {
+                    for open_try_into in [false, true] {
+                        if open_try_into && !has_lopdf { continue; }
+                        for low_numbers in [false, true] {
+                            // with a base of 3 contiguous numbers the lowest unused numbers ARE the highest until an earlier revision left a hole
+                            // (At(40..42)) and a later one is written below it: needs 3 revisions to matter, so thorough only
+                            if low_numbers && !(has_ref_stream && thorough) { continue; }
+                            for form in FORMS {
+                                if form != TableForm::Singletons && !has_ref_table { continue; }
+                                cases.push(Case { base_stream, prods: prods.clone(), seq: seq.clone(), open_try_into, low_numbers, form, layout: layout.clone() });
+                            }
                         }
                     }
                 }
             }
         }
     }
+    let results: Vec<Option<(String, String)>> = quiet(|| cases.par_iter().map(|c| check_history(c.base_stream, 3, &c.prods, &c.seq, c.open_try_into, c.low_numbers, c.form, c.layout.as_deref()).err()).collect());
+    for (c, r) in cases.iter().zip(results) {
+        rep.case(true);
+        if let Some((o, d)) = r { rep.fail(&o, d.clone(), case_json(c), d); }
+    }
     rep.sample("base(table,3 objects) ; rev1 replaces 2 ; rev2 replaces 3,2".into());
     rep.sample("base(table,3 objects) ; rev1 by lopdf replaces 2 ; rev2 by lopdf (opened with TryInto) adds one object through add_object()".into());
     rep.sample("base(xref stream,3 objects) ; rev1 by the reference object-stream writer adds object 40, ObjStm = 4, XRef = 5 ; rev2 by lopdf replaces 2 and adds two allocated objects".into());
+    rep.sample("reference-written file in physical order [rev2, base, rev1] (startxref -> rev2 near the start -> /Prev forward to rev1 at the end -> /Prev back to the base) ; rev1 = table `0 0` + `2 1` replacing 2 ; rev2 changes no object (`xref 0 0 trailer`) ; rev3 appended by lopdf".into());
     rep
 }
 
@@ -305,5 +479,8 @@ pub fn replay(v: &Value) -> Result<(), String> {
             vec![p; seq.len()]
         }
     };
-    check_history(v["base_stream"].as_bool().unwrap_or(false), 3, &prods, &seq, v["open_try_into"].as_bool().unwrap_or(false), v["low_numbers"].as_bool().unwrap_or(false)).map_err(|e| format!("{}: {}", e.0, e.1))
+    // records written before these dimensions existed: one subsection per entry, everything appended
+    let form = form_from(v["table_form"].as_str().unwrap_or("Singletons"));
+    let layout: Option<Vec<usize>> = v["layout"].as_array().map(|a| a.iter().map(|x| x.as_u64().unwrap_or(0) as usize).collect());
+    quiet(|| check_history(v["base_stream"].as_bool().unwrap_or(false), 3, &prods, &seq, v["open_try_into"].as_bool().unwrap_or(false), v["low_numbers"].as_bool().unwrap_or(false), form, layout.as_deref())).map_err(|e| format!("{}: {}", e.0, e.1))
 }
